@@ -469,7 +469,10 @@ def hoist_obligations(ctx: Ctx, I: Interp) -> None:
         ctx.check(okb, "C11.R3", "the head search walks the direct children of <html> in order", HOIST, f"for ... in {short(it)}", "the <head> search does not walk the direct children in order")
         if is_head:
             nb += 1
-            ctx.check(l.kind == "break", "C11.R3", "the first direct child tag named head ends the search", HOIST, f"head child: {l.kind}", "finding a <head> child does not stop the search")
+            # (`return i` from a search helper ends the search just like `break` in the function itself)
+            in_helper = not str(getattr(rec, "fn_qual", "")).endswith("_hoist_head_content")
+            ctx.check(l.kind == "break" or (in_helper and l.kind == "return"), "C11.R3", "the first direct child tag named head ends the search", HOIST,
+                      f"head child: {l.kind}", "finding a <head> child does not stop the search")
         else:
             ctx.check(l.kind in ("fall", "continue"), "C11.R3", "a child that is not a <head> tag does not end the search", HOIST,
                       f"non-head child ({labels}): {l.kind}",
